@@ -60,8 +60,70 @@ def _match_d21(stream, line, impl, model):
     return all("cursor" in m for m in modes)
 
 
+def gen_src_lines(rng, n):
+    ls = []
+    for _ in range(n):
+        k = rng.choice([1, 2, 3, 4, 5, 7, 8, 16])
+        size = rng.choice([0, 1, 2, 3, 5, 8, 9, 16, 17, 31, 40])
+        content = bytes(rng.randrange(256) for _ in range(size))
+        ops = []
+        for _ in range(rng.randint(1, 12)):
+            r = rng.random()
+            if r < 0.5:
+                ops.append("r%d" % rng.choice([0, 1, 2, 3, 4, 5, 8, 9, k, k + 1, 2 * k, max(k - 1, 0), size, size + 1]))
+            elif r < 0.65:
+                ops.append("p")
+            elif r < 0.8:
+                ops.append("i%d" % rng.choice([0, 1, 2, 3, k, k + 1, 2 * k + 1, size]))
+            elif r < 0.9:
+                ops.append("c")
+            else:
+                ops.append("e")
+        ls.append("src run %d x%s %s" % (k, content.hex(), " ".join(ops)))
+    return ls
+
+
+def src_oracle(line, impl, model, ref=None):
+    """judged without the model: what the source hands out is the stream's content, in order, nothing lost or invented"""
+    t = line.split()
+    content = bytes.fromhex(t[3][1:])
+    outs = impl.split()[1:]
+    off = 0
+    for op, o in zip(t[4:], outs):
+        left = len(content) - off
+        if op[0] == "r":
+            n = int(op[1:])
+            cnt, data = o[1:].split(":")
+            cnt = int(cnt)
+            if n <= left:
+                if cnt != n or bytes.fromhex(data) != content[off:off + n]:
+                    return "read(%d) with %d bytes left returned %s" % (n, left, o)
+                off += n
+            else:
+                if cnt >= n:
+                    return "read(%d) with only %d bytes left claims success" % (n, left)
+                return None          # short read: every decoder stops here
+        elif op[0] == "p":
+            want = "p-" if left == 0 else "p%02x" % content[off]
+            if o != want:
+                return "peek returned %s, expected %s" % (o, want)
+        elif op[0] == "i":
+            off += min(int(op[1:]), left)
+        elif op[0] == "c":
+            data = bytes.fromhex(o[1:])
+            if content[off:off + len(data)] != data or (not data and left):
+                return "read_chunk returned bytes that are not the next part of the stream"
+            off += len(data)
+        elif op[0] == "e":
+            if o == "e1" and left:
+                return "eof() is true while %d bytes remain" % left
+    return None
+
+
 def oracle(line, impl, model, ref=None):
     t = line.split()
+    if t[0] == "src":
+        return src_oracle(line, impl, model, ref)
     if t[1] != "deliver":
         return None
     if not impl.startswith("same "):
@@ -73,12 +135,16 @@ def oracle(line, impl, model, ref=None):
 
 def nontrivial(line, impl):
     t = line.split()
+    if t[0] == "src":
+        return line if len(t) > 7 else None
     return t[4] if len(t[4]) > 6 else None
 
 
 def streams(ctx, rng, scale):
     lw = vlib.witness_lines(PROP)
     ctx.correspond("finding-witnesses", HARNESS, lw, oracle, nontrivial, ref_lines=c02.with_ref(lw), want_model=False)
+    lo = gen_src_lines(rng, 3000 * scale)
+    ctx.correspond("stream_source-ops", "src", lo, oracle, nontrivial)
     ls = gen_lines(rng, 700 * scale)
     ctx.correspond("json-deliveries", HARNESS, ls, oracle, nontrivial, ref_lines=c02.with_ref(ls), want_model=False)
 
